@@ -3,6 +3,7 @@ import HpxVerif.Props.C15
 import HpxVerif.Lemmas.EllipseReal
 import HpxVerif.Props.C16
 import HpxVerif.Lemmas.EConeReal4
+import HpxVerif.Lemmas.EConeEq3
 
 set_option autoImplicit false   -- an unknown identifier in a statement is an error, never a new variable
 
@@ -348,5 +349,142 @@ theorem overlap_cone_noncircular_unsound :
 
 
 end EllipticalConeReal
+
+
+/-! ## H1 discharged in the equatorial region: the statements above with NO geometric hypothesis
+
+For every elliptical cone with `|lat| + a` below the transition latitude (release profile), with the radii the model really
+computes (`largest_center_to_vertex_distances_with_radius(ds, depth+1, lon, lat, a)`), for the strictly equatorial start
+cells (`InCellEq`): circular case `a = b` - no position of the disc is missed and full cells lie inside the disc; general
+`0 < b ≤ a` - the cell of the centre is kept.  `coverage_…`: the same on the output of `elliptical_cone_coverage_internal`
+itself, in both branches (starting depth below / not below the requested depth). -/
+
+section EquatorialUnconditional
+open Hpx Hpx.Hash Hpx.C2V Hpx.C2VReal Hpx.Proj Hpx.Cover Hpx.CellReal Hpx.EnvelopeReal Hpx.TopoLift Hpx.CellExtent Hpx.EConeEq Hpx.Sph Hpx.Bmoc Real
+
+/-- **`H1_equatorial_meet`**: the envelope inequality for EVERY position `q` of a strictly equatorial cell `(d, h)` as soon
+    as the cell contains SOME position `q'` of the cone (`adist (lon, lat) q' ≤ r`), every `ds ≤ d ≤ target ≤ 29` (depths 0
+    and 1 included), `|lat| + r < tl`.  (`CellExtent.H1_equatorial_cone` is the case `q' = q`; the case `q' =` centre of
+    the cell is what the `full` verdicts need.) -/
+theorem h1_equatorial_meet (cfg : Cfg) (lon lat r : ℝ) (hA : |lat| + r < tl) (ds target : ℕ) (hdt : ds ≤ target)
+    (ht : target ≤ 29) (dists : List ℝ)
+    (hdists : largestC2VsWithRadius false ds (target + 1) lon lat r = some dists) :
+    ∀ d h c D q q', ds ≤ d → Hash.center (α := ℝ) cfg d h = some c → dists[d - ds]? = some D →
+      InCellEq d h q → InCellEq d h q' → adist (lon, lat) q' ≤ r → adist c q ≤ D :=
+  Hpx.EConeEq.H1_equatorial_meet cfg lon lat r hA ds target hdt ht dists hdists
+
+/-- **`econe_circular_no_miss_equatorial`** (ℝ, release profile; C13 `circular_no_miss` with `H1`, `hcover` and the numeric
+    side conditions discharged).  Circular elliptical cone `a = b`, centre `(lon, lat)` (any real longitude), `0 < a`,
+    `|lat| + a < tl` (its latitude band stays below the transition latitude), `sin a > 2^-1024`, any position angle;
+    EVERY starting depth `ds ≤ target ≤ 29`; `dists` the list `largest_center_to_vertex_distances_with_radius(ds,
+    target + 1, lon, lat, a)` that `elliptical_cone_coverage_internal` computes (radius = semi-major axis).  If the descent
+    of the model from a start cell `root` returns `out`, every position `q` of the disc that lies in `root`, a strictly
+    equatorial cell, lies in a cell of `out`. -/
+theorem econe_circular_no_miss_equatorial (cfg : Cfg) (lon lat a pa : ℝ) (ha : 0 < a) (hA : |lat| + a < tl)
+    (hmin : 1 / 2 ^ 1024 < sin a) (ds target : ℕ) (hdt : ds ≤ target) (ht : target ≤ 29) (dists : List ℝ)
+    (hdists : largestC2VsWithRadius false ds (target + 1) lon lat a = some dists) (fuel root : ℕ) (out : List Cell)
+    (h : coverRec target (ellClassifier (α := ℝ) cfg target (ECone.new lon lat a a pa) dists) fuel ds root 0 = some out)
+    (q : ℝ × ℝ) (hq : InCellEq ds root q) (hin : adist q (lon, lat) ≤ a) :
+    ∃ c ∈ out, InCellEq c.depth c.hash q :=
+  Hpx.EConeEq.econe_circular_no_miss_equatorial cfg lon lat a pa ha hA hmin ds target hdt ht dists hdists fuel root out h q hq hin
+
+/-- **`econe_circular_full_inside_equatorial`** (ℝ, release profile; C13 `circular_full_inside` with `H1` discharged), EVERY
+    starting depth `ds ≤ target ≤ 29` (no `2 ≤ ds`: a `full` verdict needs the centre of the cell inside the disc, so the cell
+    meets the disc and `H1_equatorial_meet` applies at depths 0 and 1 too).  Under the assumptions of
+    `econe_circular_no_miss_equatorial`, a cell of the output flagged FULL either has all its positions (as a strictly
+    equatorial cell) within `a` of `(lon, lat)`, or is at the target depth with its four vertices within `a`. -/
+theorem econe_circular_full_inside_equatorial (cfg : Cfg) (lon lat a pa : ℝ) (ha : 0 < a) (hA : |lat| + a < tl)
+    (ds target : ℕ) (hdt : ds ≤ target) (ht : target ≤ 29) (dists : List ℝ)
+    (hdists : largestC2VsWithRadius false ds (target + 1) lon lat a = some dists) (fuel root : ℕ) (out : List Cell)
+    (h : coverRec target (ellClassifier (α := ℝ) cfg target (ECone.new lon lat a a pa) dists) fuel ds root 0 = some out)
+    (c : Cell) (hc : c ∈ out) (hf : c.full = true) :
+    (∀ q, InCellEq c.depth c.hash q → adist q (lon, lat) ≤ a) ∨
+    (c.depth = target ∧ ∃ vs, Hash.vertices (α := ℝ) cfg c.depth c.hash = some vs ∧
+      ∀ v ∈ vs, adist v (lon, lat) ≤ a) :=
+  Hpx.EConeEq.econe_circular_full_inside_equatorial cfg lon lat a pa ha hA ds target hdt ht dists hdists fuel root out h c hc hf
+
+/-- **`econe_centre_cell_kept_equatorial`** (ℝ, release profile; C13 `centre_cell_kept` with `H1`, `hcover`, `hext` and the
+    numeric side condition discharged).  General ellipse `0 < b ≤ a`, any position angle, centre `(lon, lat)` (any real
+    longitude) with `|lat| + a < tl`, `sin b > 2^-1024`; EVERY starting depth `ds ≤ target ≤ 29`; `dists` the list computed by
+    the crate (radius `a`).  If the descent from a start cell `root` returns `out` and `(lon, lat)` is a position of `root`, a
+    strictly equatorial cell, then `(lon, lat)` is a position of a cell of `out`. -/
+theorem econe_centre_cell_kept_equatorial (cfg : Cfg) (lon lat a b pa : ℝ) (hb : 0 < b) (hba : b ≤ a)
+    (hA : |lat| + a < tl) (hmin : 1 / 2 ^ 1024 < sin b) (ds target : ℕ) (hdt : ds ≤ target) (ht : target ≤ 29)
+    (dists : List ℝ) (hdists : largestC2VsWithRadius false ds (target + 1) lon lat a = some dists) (fuel root : ℕ)
+    (out : List Cell)
+    (h : coverRec target (ellClassifier (α := ℝ) cfg target (ECone.new lon lat a b pa) dists) fuel ds root 0 = some out)
+    (hq : InCellEq ds root (lon, lat)) :
+    ∃ c ∈ out, InCellEq c.depth c.hash (lon, lat) :=
+  Hpx.EConeEq.econe_centre_cell_kept_equatorial cfg lon lat a b pa hb hba hA hmin ds target hdt ht dists hdists fuel root out h hq
+
+/-- **no miss, on the output of the model** (ℝ, release profile `cfg.debug = false`): circular ellipse `a = b`, `0 < a`,
+    `|lat| + a < tl`, `sin a > 2^-1024`, `depth ≤ 29`, starting depth `ds = best_starting_depth(a) < depth`.  If
+    `elliptical_cone_coverage_internal` returns `cells`, then the hash `h0` of the centre at depth `ds` and its neighbourhood
+    `nm` are defined, and every position `q` of the disc that lies in a strictly equatorial cell of that neighbourhood lies in
+    a cell of `cells`. -/
+theorem coverage_circular_no_miss_equatorial (cfg : Cfg) (hcfg : cfg.debug = false) (depth : ℕ) (hd : depth ≤ 29)
+    (lon lat a pa : ℝ) (ha : 0 < a) (hA : |lat| + a < tl) (hmin : 1 / 2 ^ 1024 < sin a) (ds : ℕ)
+    (hds : bestStartingDepth a = some ds) (hlt : ds < depth) (cells : List Cell)
+    (h : ellInternal cfg depth lon lat a a pa = some cells) :
+    ∃ h0 nm, Hash.hashV2 cfg ds lon lat = some h0 ∧ Topo.neighbours cfg ds h0 true = some nm ∧
+      ∀ root ∈ nm.map (·.2), ∀ q, InCellEq ds root q → adist q (lon, lat) ≤ a →
+        ∃ c ∈ cells, InCellEq c.depth c.hash q :=
+  Hpx.EConeEq.ellInternal_circular_no_miss_equatorial cfg hcfg depth hd lon lat a pa ha hA hmin ds hds hlt cells h
+
+/-- **`full` flags are truthful, on the output of the model**: under the same assumptions every cell of `cells` flagged FULL
+    either has all its positions (as a strictly equatorial cell) within `a` of `(lon, lat)`, or is at depth `depth` with its
+    four vertices within `a` of `(lon, lat)` -/
+theorem coverage_circular_full_inside_equatorial (cfg : Cfg) (hcfg : cfg.debug = false) (depth : ℕ) (hd : depth ≤ 29)
+    (lon lat a pa : ℝ) (ha : 0 < a) (hA : |lat| + a < tl) (ds : ℕ)
+    (hds : bestStartingDepth a = some ds) (hlt : ds < depth) (cells : List Cell)
+    (h : ellInternal cfg depth lon lat a a pa = some cells) (c : Cell) (hc : c ∈ cells) (hf : c.full = true) :
+    (∀ q, InCellEq c.depth c.hash q → adist q (lon, lat) ≤ a) ∨
+    (c.depth = depth ∧ ∃ vs, Hash.vertices (α := ℝ) cfg c.depth c.hash = some vs ∧
+      ∀ v ∈ vs, adist v (lon, lat) ≤ a) :=
+  Hpx.EConeEq.ellInternal_circular_full_inside_equatorial cfg hcfg depth hd lon lat a pa ha hA ds hds hlt cells h c hc hf
+
+/-- **the cell of the centre is kept, on the output of the model**: general ellipse `0 < b ≤ a`, any position angle,
+    `|lat| + a < tl`, `sin b > 2^-1024`, `ds = best_starting_depth(a) < depth ≤ 29`.  If the centre `(lon, lat)` is a position
+    of a strictly equatorial cell of the neighbourhood of its hash at depth `ds`, it is a position of a cell of `cells`. -/
+theorem coverage_centre_cell_kept_equatorial (cfg : Cfg) (hcfg : cfg.debug = false) (depth : ℕ) (hd : depth ≤ 29)
+    (lon lat a b pa : ℝ) (hb : 0 < b) (hba : b ≤ a) (hA : |lat| + a < tl) (hmin : 1 / 2 ^ 1024 < sin b) (ds : ℕ)
+    (hds : bestStartingDepth a = some ds) (hlt : ds < depth) (cells : List Cell)
+    (h : ellInternal cfg depth lon lat a b pa = some cells) :
+    ∃ h0 nm, Hash.hashV2 cfg ds lon lat = some h0 ∧ Topo.neighbours cfg ds h0 true = some nm ∧
+      ∀ root ∈ nm.map (·.2), InCellEq ds root (lon, lat) → ∃ c ∈ cells, InCellEq c.depth c.hash (lon, lat) :=
+  Hpx.EConeEq.ellInternal_centre_cell_kept_equatorial cfg hcfg depth hd lon lat a b pa hb hba hA hmin ds hds hlt cells h
+
+/-- **no miss, branch `depth ≤ ds`** (ℝ, release profile): circular ellipse `a = b`, `0 < a`, `|lat| + a < tl`,
+    `sin a > 2^-1024`.  If `elliptical_cone_coverage_internal` returns `cells`, every strictly equatorial cell `e` of the
+    neighbourhood (depth `ds`) that contains a position `q` of the disc has its ancestor at `depth` in `cells`. -/
+theorem coverage_shallow_circular_no_miss_equatorial (cfg : Cfg) (hcfg : cfg.debug = false) (depth : ℕ)
+    (lon lat a pa : ℝ) (ha : 0 < a) (hA : |lat| + a < tl) (hmin : 1 / 2 ^ 1024 < sin a) (ds : ℕ)
+    (hds : bestStartingDepth a = some ds) (hge : depth ≤ ds) (cells : List Cell)
+    (h : ellInternal cfg depth lon lat a a pa = some cells) :
+    ∃ h0 nm, Hash.hashV2 cfg ds lon lat = some h0 ∧ Topo.neighbours cfg ds h0 true = some nm ∧
+      ∀ e ∈ nm.map (·.2), ∀ q, InCellEq ds e q → adist q (lon, lat) ≤ a →
+        ({ depth := depth, hash := e >>> ((ds - depth) <<< 1), full := false } : Cell) ∈ cells :=
+  Hpx.EConeEq.ellInternal_shallow_circular_no_miss_equatorial cfg hcfg depth lon lat a pa ha hA hmin ds hds hge cells h
+
+/-- **the cell of the centre is kept, branch `depth ≤ ds`**: general ellipse `0 < b ≤ a`, `|lat| + a < tl`,
+    `sin b > 2^-1024`: every strictly equatorial cell `e` of the neighbourhood that contains the centre `(lon, lat)` has its
+    ancestor at `depth` in `cells`. -/
+theorem coverage_shallow_centre_cell_kept_equatorial (cfg : Cfg) (hcfg : cfg.debug = false) (depth : ℕ)
+    (lon lat a b pa : ℝ) (hb : 0 < b) (hba : b ≤ a) (hA : |lat| + a < tl) (hmin : 1 / 2 ^ 1024 < sin b) (ds : ℕ)
+    (hds : bestStartingDepth a = some ds) (hge : depth ≤ ds) (cells : List Cell)
+    (h : ellInternal cfg depth lon lat a b pa = some cells) :
+    ∃ h0 nm, Hash.hashV2 cfg ds lon lat = some h0 ∧ Topo.neighbours cfg ds h0 true = some nm ∧
+      ∀ e ∈ nm.map (·.2), InCellEq ds e (lon, lat) →
+        ({ depth := depth, hash := e >>> ((ds - depth) <<< 1), full := false } : Cell) ∈ cells :=
+  Hpx.EConeEq.ellInternal_shallow_centre_cell_kept_equatorial cfg hcfg depth lon lat a b pa hb hba hA hmin ds hds hge cells h
+
+/-- in the branch `depth ≤ ds` no cell is flagged full: the `full`-flag statement is void there -/
+theorem coverage_shallow_no_full (cfg : Cfg) (depth : ℕ) (lon lat a b pa : ℝ) (hb : b < π) (hA : |lat| + a < tl) (ds : ℕ)
+    (hds : bestStartingDepth a = some ds) (hge : depth ≤ ds) (cells : List Cell)
+    (h : ellInternal cfg depth lon lat a b pa = some cells) : ∀ c ∈ cells, c.full = false ∧ c.depth = depth :=
+  Hpx.EConeEq.ellInternal_shallow_no_full cfg depth lon lat a b pa hb hA ds hds hge cells h
+
+
+end EquatorialUnconditional
 
 end Hpx.C13
